@@ -17,6 +17,7 @@ TRANSFORM_MODES = [
     ("in-cat", "cat $IN", []),
     ("in-readonly", H + "/readonly_in.sh $IN", []),
     ("in-out", H + "/cp.sh $IN $OUT", []),
+    ("stdin-out", H + "/to_out.sh $OUT", []),
     ("in-place-copy", H + "/inplace_upper.sh $IN", ["--in-place"]),
     ("in-place-copy-bak", H + "/inplace_bak.sh $IN", ["--in-place"]),
     ("in-bak", H + "/inplace_bak.sh $IN", []),
@@ -26,7 +27,7 @@ TRANSFORM_MODES = [
     ("in-out-nocopy", H + "/cp.sh $IN $OUT", ["--no-copy"]),
 ]
 
-RULE = ("generated trees (hard links, symlinks, hostile names) x `group` in every transform I/O mode (stdin->stdout, $IN, "
+RULE = ("generated trees (hard links, symlinks, hostile names) x `group` in every transform I/O mode (stdin->stdout, stdin->$OUT, $IN, "
         "$IN+$OUT, --in-place (also with a program that leaves a FILE.bak companion next to its input), --in-place --no-copy and --no-copy with programs that only read, ignore or fail), --cache, "
         "-o file, all formats, and every dedupe operation with --dry-run and random options. Oracle 1: full inventory "
         "(paths, bytes, link structure, inode, mode, mtime_ns) identical before/after, $TMPDIR empty afterwards, nothing but "
